@@ -62,6 +62,34 @@ Theorem C20_total :
     = Some (c_add_doc MAX_INCLUDE_DEPTH en ns c doc a).
 Proof. exact c_total. Qed.
 
+(* ... and 17 is needed: the depth bound is tight (self-including file, 16 levels of fuel do not suffice) *)
+Theorem C20_depth_bound_tight :
+  exists (en : env plain) ns c doc a, c_add_doc_fuel (Some MAX_INCLUDE_DEPTH) MAX_INCLUDE_DEPTH 0 en ns c doc a = None.
+Proof. exact c_total_tight. Qed.
+
+(* Inlining is the concatenation, in document order, of what each component stands for — depth-first, since
+   the expansion of a directive is the same concatenation one level down (`expand` calls `inline (d-1)`). *)
+Theorem C20_inline_is_dfs_concat :
+  forall en ns d c cs,
+    c_inline en ns d c cs = flat_map (expand plain cerr en ns (srec plain cerr en ns d) c) cs.
+Proof. exact c_inline_concat. Qed.
+
+(* There is no include-once: a directive written twice stands for its content twice ... *)
+Theorem C20_no_include_once :
+  forall en ns d c name rest,
+    c_inline en ns d c (inl name :: inl name :: rest)
+    = expand plain cerr en ns (srec plain cerr en ns d) c (inl name)
+      ++ expand plain cerr en ns (srec plain cerr en ns d) c (inl name) ++ c_inline en ns d c rest.
+Proof. exact c_include_twice. Qed.
+
+(* ... so a rule met a second time in the same namespace is an error (duplicate rule, or its own rule-set
+   prefix): a file holding a rule cannot be included twice, one holding only imports can. *)
+Theorem C20_rule_twice_fails :
+  forall st ns r st1,
+    c_step (c_touch st ns) ns (PRule r) = (st1, None) ->
+    exists e, snd (c_step (c_touch st1 ns) ns (PRule r)) = Some e /\ (e = CDupRule \/ e = CWildcard).
+Proof. exact c_rule_twice_fails. Qed.
+
 (* a directive that leads back to the document it is in is rejected with the depth error *)
 Theorem C20_cycle_rejected :
   forall en ns c name, e_disabled en = false ->
@@ -103,6 +131,12 @@ Theorem C20_resolution_canonical :
     Reach plain (e_fs en) (e_cwd en) ->
     fs_target plain en c name = Some q -> Reach plain (e_fs en) q.
 Proof. exact c_target_reach. Qed.
+
+(* canonicalization is idempotent: its result is a fixed point (names only, every prefix an existing directory) *)
+Theorem C20_canonicalize_idempotent :
+  forall (fs : fsys plain) segs d q,
+    Reach plain fs d -> walk fs d segs = Some q -> walk fs [] (map SName q) = Some q.
+Proof. exact (canonicalize_idempotent plain). Qed.
 
 (* Callback mode: the callback receives (directive text, current path, namespace) as they are; what it
    returns is compiled with the directive text as the new current path. *)
@@ -151,7 +185,22 @@ Example C20_example_reach :
   /\ fs_target plain ex_env (CurCanon ["a"; "b"; "x.yar"]) "../y.yar" = Some ["a"; "y.yar"].
 Proof. vm_compute. repeat split. Qed.
 
+(* a shared leaf that only imports can be included twice; one that defines a rule cannot *)
+Definition ex_dag (leaf : list (string + plain)) : env plain :=
+  {| e_fs := [ (["t.yar"], NFile (FText [inl "l.yar"; inl "l.yar"])); (["l.yar"], NFile (FText leaf)) ];
+     e_cwd := []; e_cb := None; e_disabled := false |}.
+Example C20_example_include_twice :
+  (o_results (model_outcome (ex_dag [inr (PImport "math")]) [AddFile plain "t.yar" "default"]),
+   o_results (model_outcome (ex_dag [ex_rule "r" []]) [AddFile plain "t.yar" "default"]))
+  = ([None], [Some (ECompile CDupRule)]).
+Proof. vm_compute. reflexivity. Qed.
+
 Print Assumptions C20_model_is_inline.
+Print Assumptions C20_depth_bound_tight.
+Print Assumptions C20_inline_is_dfs_concat.
+Print Assumptions C20_no_include_once.
+Print Assumptions C20_rule_twice_fails.
+Print Assumptions C20_canonicalize_idempotent.
 Print Assumptions C20_transparent.
 Print Assumptions C20_transparent_complete.
 Print Assumptions C20_inline_functional.
